@@ -303,6 +303,10 @@ func c20Exec(run *ev.Run, c ev.Case) {
 					if err != nil || got != want || consumed != (n+1)/2 {
 						viol("bcdplus", fmt.Sprintf("BCD-plus %d chars from % x: got %q consumed %d err %v, want %q consumed %d", n, b, got, consumed, err, want, (n+1)/2), nil)
 					}
+					// the same string ending exactly where the data ends (how a record usually ends)
+					if got, consumed, err := dec.Decode(exactCopy(b[:len(b)-1]), n); err != nil || got != want || consumed != (n+1)/2 {
+						viol("bcdplus-at-end-of-data", fmt.Sprintf("BCD-plus %d chars from exactly % x: got %q consumed %d err %v, want %q", n, b[:len(b)-1], got, consumed, err, want), nil)
+					}
 				}
 			}
 		}
@@ -343,6 +347,9 @@ func c20Exec(run *ev.Run, c ev.Case) {
 					got, consumed, err := dec.Decode(b, n)
 					if err != nil || got != want || consumed != nbytes {
 						viol("sixbit", fmt.Sprintf("6-bit packed %d chars from % x: got %q consumed %d err %v, want %q consumed %d", n, b, got, consumed, err, want, nbytes), nil)
+					}
+					if got, consumed, err := dec.Decode(exactCopy(b[:len(b)-1]), n); err != nil || got != want || consumed != nbytes {
+						viol("sixbit-at-end-of-data", fmt.Sprintf("6-bit packed %d chars from exactly % x: got %q consumed %d err %v, want %q", n, b[:len(b)-1], got, consumed, err, want), nil)
 					}
 				}
 			}
@@ -447,10 +454,18 @@ func c20Exec(run *ev.Run, c ev.Case) {
 			}
 		}
 	case "instance":
-		for v := 0; v < 128; v++ {
+		for v := 0; v < 256; v++ {
 			run.Eval(1)
 			run.Nontrivial(fmt.Sprintf("instance:%d", v))
 			i := ipmi.EntityInstance(v)
+			if v >= 0x80 {
+				// outside the 7-bit field (a caller passing an unmasked byte): neither range
+				// of table 39-1 contains it, so it is in neither class
+				if i.IsSystemRelative() || i.IsDeviceRelative() {
+					viol("entity-instance-out-of-range", fmt.Sprintf("instance %#x (outside 0x00..0x7f): system-relative %v device-relative %v", v, i.IsSystemRelative(), i.IsDeviceRelative()), nil)
+				}
+				continue
+			}
 			if i.IsSystemRelative() != (v <= 0x5f) || i.IsDeviceRelative() != (v >= 0x60) {
 				viol("entity-instance", fmt.Sprintf("instance %#x: system-relative %v device-relative %v", v, i.IsSystemRelative(), i.IsDeviceRelative()), nil)
 			}
